@@ -156,6 +156,9 @@ def kernels(chk):
         j, k = Symbol("j", integer=True), Symbol("k", integer=True)
         vals = ex.env["vals"]
         keys = list(vals.cells)
+        # the loop variables are whatever the kernel calls them: take them from the written cell
+        if len(keys) == 1 and len(keys[0]) == 3 and isinstance(keys[0][1], sp.Symbol) and isinstance(keys[0][2], sp.Symbol):
+            k, j = keys[0][1], keys[0][2]
         nz = Symbol("n0_vals", integer=True, positive=True)
         i = args["i"]
         want_key = (Function("mod")(i - args["shifts"].fn(j), nz), k, j)
@@ -211,7 +214,8 @@ def step_wiring(chk):
         "self._thetaSpline.basis.cubic_uniform": "cubic_uniform_splines"})
     c2 = calls["flux_advection"]
     a = [src(x).replace(" ", "") for x in c2.args]
-    ok = a == ["*self._nPoints", "f", "self._lagrangeCoeffs[rIdx,cIdx]", "self._LagrangeVals"]
+    ok = a == ["*self._nPoints", "f", "self._lagrangeCoeffs[rIdx,cIdx]", "self._LagrangeVals"] or \
+        a == ["self._nPoints[0]", "self._nPoints[1]", "f", "self._lagrangeCoeffs[rIdx,cIdx]", "self._LagrangeVals"]
     chk.ob("E2-argument-role", c2, "flux_advection(*self._nPoints, f, coeffs[rIdx,cIdx], vals)", ok,
            "(n_theta, n_z), the field, the weights of the same (r,v) entry as the shifts, and the table" if ok else f"arguments {a}",
            file=U.ADV, func=f"{CLS}.step")
